@@ -14,7 +14,7 @@ for f in known_findings.txt MANIFEST.json check setup.sh harness/go.mod; do
   if git status --short | grep -q "^UU $f\|^AA $f"; then git checkout --ours $f 2>/dev/null; git add $f; fi
 done
 for f in $(git status --short | grep '^UU evidence/\|^AA evidence/' | awk '{print $2}'); do git checkout --theirs $f; git add $f; done
-git status --short | grep '^U\|^AA' && echo "MERGE CONFLICTS REMAIN"
+if git status --short | grep '^U\|^AA'; then echo "MERGE CONFLICTS REMAIN — resolve by hand, then: git add -A; git commit; re-run the tail of this script"; exit 1; fi
 ./tools/pkgsplit.sh >/dev/null; python3 tools/mkfindings.py >/dev/null; python3 tools/mkmanifest.py
 git add -A
 git -c core.editor=true commit -qm "Merge $BR" 2>&1 | tail -2
